@@ -429,7 +429,7 @@ namespace Givaro
             sign =1;
         }
         r = Rep( (ua >=_p) ? ua % _p : ua );
-        if (sign ==-1)
+        if (sign ==-1 && r != 0)
             r = Rep(_p - r);
         assert(r < _p);
         return r = _tab_value2rep[r];
